@@ -35,6 +35,8 @@ func init() {
 			{Name: "fixable-skips-introducing-patches", File: "guidedremediation/guidedremediation.go", Old: "	for _, p := range allPatches {\n		for _, v := range p.Fixed {", New: "	for _, p := range allPatches {\n		if len(p.Introduced) > 0 {\n			continue\n		}\n		for _, v := range p.Fixed {", Rule: "D5-unactionable", Site: "computeVulnsResult"},
 			{Name: "choose-ignores-nointroduce", File: "guidedremediation/guidedremediation.go", Old: "		if noIntroduce && len(patch.Introduced) > 0 {\n			continue\n		}\n", New: "", Rule: "D3-update-is-diff", Site: "choosePatches"},
 			{Name: "filter-with-private-options-copy", File: "guidedremediation/internal/remediation/remediation.go", Old: "	filteredVulns = slices.DeleteFunc(filteredVulns, func(v resolution.Vulnerability) bool { return !MatchVuln(*opts, v) })\n	return ResolvedGraph{", New: "	matchOpts := *opts\n	filteredVulns = slices.DeleteFunc(filteredVulns, func(v resolution.Vulnerability) bool { return !MatchVuln(matchOpts, v) })\n	return ResolvedGraph{", Rule: "D1-one-view", Site: "ResolveGraphVulns"},
+			{Name: "devdeps-test-inverted", File: "guidedremediation/internal/remediation/match.go", Old: "	if !opts.DevDeps && v.DevOnly {", New: "	if opts.DevDeps && v.DevOnly {", Rule: "D7-filter-semantics", Site: "MatchVuln"},
+			{Name: "severity-or-depth", File: "guidedremediation/internal/remediation/match.go", Old: "	return matchSeverity(v, opts.MinSeverity) && matchDepth(v, opts.MaxDepth)", New: "	return matchSeverity(v, opts.MinSeverity) || matchDepth(v, opts.MaxDepth)", Rule: "D7-filter-semantics", Site: "MatchVuln"},
 		},
 		Neutral: c12Neutral,
 	})
@@ -84,6 +86,8 @@ func runC12(p *Prog, r *Report) {
 	r.Rule("D3-applied-or-error", "package.json: an update is applied or Write fails")
 	r.Rule("D4-identity", "package.json: the buffer changes only inside the update loop; it is what gets written")
 	r.Rule("D6-section-bookkeeping", "pom.xml: a section is marked as handled under the origin whose patches were applied to it")
+	r.Rule("D7-filter-semantics", "MatchVuln decides exactly as the option semantics says")
+	c12MatchTable(p, r)
 	c12View(p, r)
 	c12Dedupe(p, r)
 	c12Diff(p, r)
@@ -981,4 +985,70 @@ func freeVarIsParamCell(h *ssa.Function, fv *ssa.FreeVar) bool {
 		})
 	}
 	return res
+}
+
+
+// c12MatchTable: remediation.MatchVuln, as a boolean function of its atomic tests, equals
+//
+//	considered ⇔ ¬ignored(ID or alias) ∧ (DevDeps ∨ ¬DevOnly) ∧ severity ≥ MinSeverity ∧ depth ≤ MaxDepth
+func c12MatchTable(p *Prog, r *Report) {
+	fn := p.Func(pkgRemediation, "MatchVuln")
+	site := "remediation.MatchVuln"
+	if fn == nil {
+		r.Undecided("D7-filter-semantics", "anchor:"+site, "-", "not found")
+		return
+	}
+	atoms, table, ok := decisionTableRaw(fn, false)
+	if !ok {
+		r.Undecided("D7-filter-semantics", site, p.Pos(fn.Pos()), "MatchVuln is no longer a loop-free combination of at most 12 atomic tests")
+		return
+	}
+	classify := func(a string) string {
+		switch {
+		case strings.Contains(a, "remediation.matchID(param1,param0.IgnoreVulns)"):
+			return "ignored"
+		case a == "param0.DevDeps":
+			return "devDeps"
+		case a == "param1.DevOnly":
+			return "devOnly"
+		case strings.Contains(a, "remediation.matchSeverity(param1,param0.MinSeverity)"):
+			return "sevOK"
+		case strings.Contains(a, "remediation.matchDepth(param1,param0.MaxDepth)"):
+			return "depthOK"
+		}
+		return ""
+	}
+	var vars []string
+	have := map[string]bool{}
+	for _, a := range atoms {
+		v := classify(a)
+		if v == "" {
+			r.Undecided("D7-filter-semantics", site+":atom", p.Pos(fn.Pos()), "MatchVuln tests something the option semantics does not mention (or with other operands): "+a)
+			return
+		}
+		vars = append(vars, v)
+		have[v] = true
+	}
+	for _, n := range []string{"ignored", "devDeps", "devOnly", "sevOK", "depthOK"} {
+		if !have[n] {
+			r.Fail("D7-filter-semantics", site+":"+n, p.Pos(fn.Pos()), "MatchVuln no longer makes the test '"+n+"': that option is not honoured")
+			return
+		}
+	}
+	for row := 0; row < len(table); row++ {
+		val := map[string]bool{}
+		for k, v := range vars {
+			val[v] = row&(1<<k) != 0
+		}
+		model := !val["ignored"] && (val["devDeps"] || !val["devOnly"]) && val["sevOK"] && val["depthOK"]
+		if model != (table[row] == '1') {
+			var desc []string
+			for k, v := range vars {
+				desc = append(desc, fmt.Sprintf("%s=%v", v, row&(1<<k) != 0))
+			}
+			r.Fail("D7-filter-semantics", site, p.Pos(fn.Pos()), fmt.Sprintf("MatchVuln answers %v when %s; the option semantics says %v: the vulnerabilities analysed, reported and re-analysed are filtered differently from what the options ask", table[row] == '1', strings.Join(desc, " "), model))
+			return
+		}
+	}
+	r.OK("D7-filter-semantics", site, p.Pos(fn.Pos()), fmt.Sprintf("equals the option semantics on all %d combinations of its %d tests", len(table), len(atoms)))
 }
